@@ -225,6 +225,8 @@ def check(gt, irs, universe, model_parent=None, names=(), rnd=None,
         for m in mods:
             members = list(m.symbols)
             for nm in allnames:
+                # an equal, distinct string object, not the symbol's own
+                nm = bytes(nm, "utf-8").decode("utf-8")
                 cnt["c10:symbols_named_checks"] += 1
                 exp = [s for s in members if s.name == nm]
                 if exp:
